@@ -82,6 +82,10 @@ def run(ctx):
                      "sequence generator", floor=2)
     fc.check_lifecycle_transfer(rep, prog, "PD-5", fields={"port_state", "peer_delay_state", "mean_delay",
                                                            "pdelay_seq_ids"}, check_pending=False)
+    rep.rule("PD-8", "the Time/Duration operators the link-delay computation uses (t4 = receive time - correction, ...) have "
+                     "their arithmetic meaning for operands of either sign - shared with C16 OPS-1", floor=8)
+    from rules import timeops as _timeops
+    _timeops.check_ops(rep, prog, "PD-8")
     rows = fsm.transitions(prog)
     rep.rule("PD-7", "when a second responder is detected while an exchange is still being measured, that exchange is "
                      "discarded (peer_delay_state reset) so it cannot complete and un-fault the port", floor=2)
